@@ -383,7 +383,7 @@ func checkC01(c *hx.Checker) {
 		"Templates: Add/Sub/Mul (all ordered pairs for Sub), Relu, Transpose, Softmax{axis=-1}, Softmax{axis=0}, MatMul, Gemm{transB}, Gemm{transA,alpha=.5,beta=2} (C wired / omitted / empty), Concat+Slice, Reshape, Squeeze, Constant, RNN/GRU/LSTM with default and with explicit non-default activations (initial_h omitted / empty / wired; 5 output naming schemes: arbitrary, spec names, permuted spec names, trailing output omitted, skipped output with empty name). " +
 		"BFS: all programs of depth <= 2 over the full alphabet; depth 3 over the reduced alphabet {Sub, Relu, Transpose, Gemm2, GRU} as chains (each node consumes its predecessor's result)" +
 		map[bool]string{true: " and, thorough, unrestricted depth 3 over the reduced alphabet plus ALL depth-3 programs over the full alphabet (streamed simplest-first under a 25-minute budget; the evidence says whether it completed)", false: ""}[thorough] +
-		"; 2 input value sets; every depth<=1 program also with w1 declared as graph input (not supplied / supplied with another value), with the graph inputs declared with symbolic dims / without shape, and with the initializer w1 and the graph input a declared as graph outputs (passthrough); with value_info entries for every intermediate value, and with one output name more than the last node's operator returns (declared as graph output: Run must fail), with the last graph output declared twice, and with the caller's map carrying other tensors under the names of the intermediate values (computed correctly or refused); scalar (rank-0) graph inputs with and without an initializer default. Every program is marshalled, loaded with NewModelFromBytes and Run with EVERY intermediate value declared as graph output, and compared value by value with the reference evaluation of the same graph. " +
+		"; 2 input value sets; every depth<=1 program also with w1 declared as graph input (not supplied / supplied with another value), with the graph inputs declared with symbolic dims / without shape, and with the initializer w1 and the graph input a declared as graph outputs (passthrough); with value_info entries for every intermediate value, and with one output name more than the last node's operator returns (declared as graph output: Run must fail), with the last graph output declared twice, and with the caller's map carrying other tensors under the names of the intermediate values (computed correctly or refused); scalar (rank-0) graph inputs with and without an initializer default; one 5-node program under 7 value-naming schemes (prefixes of each other, case-only differences, odd characters, numeric-looking, very long, keyword-like) x 4 orders of the input / initializer / output lists; a chain of 600 nodes. Every program is marshalled, loaded with NewModelFromBytes and Run with EVERY intermediate value declared as graph output, and compared value by value with the reference evaluation of the same graph. " +
 		"states = program prefixes, transitions = appended node instances; non-trivial = programs with >= 1 node"
 	c.Assumptions = []string{"reference evaluator: ref interpreter applied node by node to a name->tensor environment (refeval.go)", "tolerance 1e-4 (abs+rel) on float32 values of magnitude <= ~10",
 		"a node listing fewer output names than the operator returns may be refused (positional binding with length check) but must never yield nil / missing outputs"}
@@ -490,6 +490,96 @@ func checkC01(c *hx.Checker) {
 		c.Case(hx.CaseInfo{ID: id, Tags: tags, NonTrivial: len(it.p.Nodes) > 0, Sample: sample}, func() *hx.Violation { return mc.run() })
 	}
 	c.ParallelFor(len(items), func(i int) { runItem(i, items[i]) })
+	// naming and ordering stress on one fixed program (x = Sub(a,b); y = Relu(x); z = Add(y,w1); t = Transpose(z);
+	// u = MatMul(t,w2)): value names that are prefixes of each other, differ only in case, carry spaces / dots /
+	// non-ASCII characters or are very long; the lists of initializers, graph inputs and graph outputs in every
+	// rotation / reversed; a chain of 600 nodes
+	{
+		base := []string{"a", "b", "w1", "w2", "x", "y", "z", "t", "u"}
+		schemes := map[string][]string{
+			"plain":        base,
+			"prefixes":     {"a", "aa", "aaa", "aaaa", "a_", "a__", "a_a", "aa_", "_a"},
+			"case":         {"x", "X", "w", "W", "Y", "y", "Z", "z", "xX"},
+			"odd-chars":    {"in put", "in.put", "wei/ght", "w:2", " x", "y ", "z\tz", "t\"", "\u00fc"},
+			"numeric":      {"0", "1", "00", "01", "10", "1.0", "-1", "1e3", "0x1"},
+			"very-long":    {strings.Repeat("a", 300), strings.Repeat("a", 301), strings.Repeat("w", 4000), strings.Repeat("w", 3999) + "W", "x" + strings.Repeat("y", 999), strings.Repeat("y", 1000), "z", "t", strings.Repeat("u", 70000)},
+			"like-keywords": {"input", "output", "Input", "initializer", "tensor", "nil", "null", "_", "y_pred"},
+		}
+		av, bv := recFill(ref.F32, []int{2, 2}, 41), recFill(ref.F32, []int{2, 2}, 42)
+		w1v, w2v := recFill(ref.F32, []int{2, 2}, 43), recFill(ref.F32, []int{2, 2}, 44)
+		xv, _ := ref.Binary("Sub", av, bv)
+		yv, _ := ref.Unary("Relu", xv)
+		zv, _ := ref.Binary("Add", yv, w1v)
+		tv, _ := ref.Transpose(zv, []int64{1, 0}, true)
+		uv, _ := ref.MatMul(tv, w2v)
+		vals := []*ref.T{av, bv, w1v, w2v, xv, yv, zv, tv, uv}
+		var snames []string
+		for k := range schemes {
+			snames = append(snames, k)
+		}
+		sort.Strings(snames)
+		for _, sn := range snames {
+			nm := schemes[sn]
+			for rot := 0; rot < 4; rot++ {
+				g := &onnx.GraphProto{Name: "g"}
+				ins := []*onnx.ValueInfoProto{hx.ValueInfo(nm[0], ref.F32, hx.FixedDims([]int{2, 2})), hx.ValueInfo(nm[1], ref.F32, hx.FixedDims([]int{2, 2}))}
+				inits := []*onnx.TensorProto{hx.TensorProto(nm[2], w1v, "raw"), hx.TensorProto(nm[3], w2v, "typed")}
+				outs := []*onnx.ValueInfoProto{}
+				for k := 4; k < 9; k++ {
+					outs = append(outs, hx.ValueInfoNoShape(nm[k]))
+				}
+				if rot&1 == 1 {
+					ins[0], ins[1] = ins[1], ins[0]
+					inits[0], inits[1] = inits[1], inits[0]
+				}
+				if rot&2 == 2 {
+					for i, j := 0, len(outs)-1; i < j; i, j = i+1, j-1 {
+						outs[i], outs[j] = outs[j], outs[i]
+					}
+				}
+				g.Input, g.Initializer, g.Output = ins, inits, outs
+				g.Node = []*onnx.NodeProto{hx.Node("Sub", []string{nm[0], nm[1]}, []string{nm[4]}, nil), hx.Node("Relu", []string{nm[4]}, []string{nm[5]}, nil),
+					hx.Node("Add", []string{nm[5], nm[2]}, []string{nm[6]}, nil), hx.Node("Transpose", []string{nm[6]}, []string{nm[7]}, []hx.Attr{hx.AInts("perm", 1, 0)}),
+					hx.Node("MatMul", []string{nm[7], nm[3]}, []string{nm[8]}, nil)}
+				exp := map[string]*ref.T{}
+				for k := 4; k < 9; k++ {
+					exp[nm[k]] = vals[k]
+				}
+				mc := newModelCase(hx.Marshal(hx.Model(g, 13)), map[string]*ref.T{nm[0]: av, nm[1]: bv}, "outputs", exp, hx.Tol(1e-5, 1e-5), "")
+				mc.Graph = "Sub, Relu, Add, Transpose, MatMul with the value names of scheme " + sn
+				id := fmt.Sprintf("naming/%s/list-order=%d", sn, rot)
+				c.Case(hx.CaseInfo{ID: id, Tags: []string{"naming", "scheme=" + sn}, NonTrivial: true}, func() *hx.Violation { return mc.run() })
+			}
+		}
+		// a long chain: 600 nodes alternating Relu / Add(w) / Sub(w) / Transpose, every 50th value a graph output
+		g := &onnx.GraphProto{Name: "g", Input: []*onnx.ValueInfoProto{hx.ValueInfo("v0", ref.F32, hx.FixedDims([]int{2, 2}))}, Initializer: []*onnx.TensorProto{hx.TensorProto("w", w1v, "raw")}}
+		cur := av
+		exp := map[string]*ref.T{}
+		for i := 1; i <= 600; i++ {
+			in, out := fmt.Sprintf("v%d", i-1), fmt.Sprintf("v%d", i)
+			switch i % 4 {
+			case 0:
+				g.Node = append(g.Node, hx.Node("Relu", []string{in}, []string{out}, nil))
+				cur, _ = ref.Unary("Relu", cur)
+			case 1:
+				g.Node = append(g.Node, hx.Node("Add", []string{in, "w"}, []string{out}, nil))
+				cur, _ = ref.Binary("Add", cur, w1v)
+			case 2:
+				g.Node = append(g.Node, hx.Node("Sub", []string{"w", in}, []string{out}, nil))
+				cur, _ = ref.Binary("Sub", w1v, cur)
+			default:
+				g.Node = append(g.Node, hx.Node("Transpose", []string{in}, []string{out}, []hx.Attr{hx.AInts("perm", 1, 0)}))
+				cur, _ = ref.Transpose(cur, []int64{1, 0}, true)
+			}
+			if i%50 == 0 {
+				g.Output = append(g.Output, hx.ValueInfoNoShape(out))
+				exp[out] = cur
+			}
+		}
+		mc := newModelCase(hx.Marshal(hx.Model(g, 13)), map[string]*ref.T{"v0": av}, "outputs", exp, hx.Tol(1e-4, 1e-4), "")
+		mc.Graph = "chain of 600 nodes"
+		c.Case(hx.CaseInfo{ID: "naming/long-chain-600", Tags: []string{"naming", "long-chain"}, NonTrivial: true}, func() *hx.Violation { return mc.run() })
+	}
 	// scalar (rank-0) graph inputs: declared with an empty shape or without shape, with / without an initializer
 	// default, supplied or left to the default, also declared as graph output
 	{
